@@ -344,7 +344,7 @@ char *c23_ld_syms[] = { _end, _etext, _edata };
 KINDS = ["static", "static-pie", "pie", "dyn-nonpie", "shared"]
 SINGLE_OPTS = [[], ["-z", "pack-relative-relocs"], ["--hash-style=gnu"], ["--hash-style=sysv"], ["--hash-style=both"], ["--build-id=none"],
                ["--build-id=fast"], ["--build-id=sha1"], ["--build-id=uuid"], ["--eh-frame-hdr"], ["--no-eh-frame-hdr"], ["--strip-all"],
-               ["--strip-debug"], ["--no-relax"], ["--retain-symbols-file=retain.txt"], ["--retain-symbols-file=retain.txt", "--hash-style=both"], ["--got-plt-syms"], ["-z", "now"], ["--gc-sections"], ["--no-gc-sections"]]
+               ["--strip-debug"], ["--no-relax"], ["--retain-symbols-file=retain.txt"], ["--retain-symbols-file=retain.txt", "--hash-style=both"], ["--got-plt-syms"], ["--strip-all", "--got-plt-syms"], ["-z", "now"], ["--gc-sections"], ["--no-gc-sections"]]
 
 
 def build_objects(d):
